@@ -389,13 +389,20 @@ def PKind.step (k : PKind) (s : PState) : Op → Option (PState × Option Int)
     | .ok s p => some (s, some p)
   | .newBatch => some (k.onNewBatch s, none)
 
-/-- Run a whole op sequence: the picks (with the `n` they were made for), or `none` on a panic. -/
-def PKind.run (k : PKind) : PState → List Op → Option (List (Int × Int))
+/-- The key a call exposes to the partitioner's key logic (`none`: nil key, or keys are ignored). -/
+def PKind.obsKey : PKind → Rec → Option (List UInt8)
+  | .stickyKey _, r => r.key
+  | .uniformBytes c, r => if c.keys then r.key else none
+  | _, _ => none
+
+/-- Run a whole op sequence: for every partition call the observable triple (key seen by the key logic,
+`n`, pick); `none` on a panic. -/
+def PKind.run (k : PKind) : PState → List Op → Option (List (Option (List UInt8) × Int × Int))
   | _, [] => some []
   | s, .newBatch :: ops => k.run (k.onNewBatch s) ops
   | s, .part r n mapping draws :: ops =>
     match k.partitionN s r n (Iter.ofMapping mapping) draws with
     | .panic => none
-    | .ok s' p => (k.run s' ops).map ((n, p) :: ·)
+    | .ok s' p => (k.run s' ops).map ((k.obsKey r, n, p) :: ·)
 
 end Model.C28
